@@ -74,10 +74,13 @@ def build(kind):
         "R4": mk("R4", {"a_first_b": C20B, "z_last_c": C20C}),
         # ... and last
         "R5": mk("R5", {"a_first_c": C20C, "z_last_a": C20A}),
+        # two handlers for ONE class inside one resource (class annotation + string annotation): always refused
+        "R6": mk("R6", {"on_c_one": C20C, "on_c_two": "C20C", "on_b": C20B}),
     }
     handlers = {
         "R1": {"A": "R1.on_a", "B": "R1.on_b"}, "R2": {"A": "R2.on_a"}, "R3": {"C": "R3.on_c"},
         "R4": {"B": "R4.a_first_b", "C": "R4.z_last_c"}, "R5": {"C": "R5.a_first_c", "A": "R5.z_last_a"},
+        "R6": {"C": "R6.on_c_one", "B": "R6.on_b"},
     }
     disp = ServerMessageDispatcher() if kind == "server" else ClientMessageDispatcher()
     return disp, res, handlers, log
@@ -93,7 +96,16 @@ def free_fn(kind, log):
     return f
 
 
-OPS = [("register", r) for r in ("R1", "R2", "R3", "R4", "R5")] + [("unregister", r) for r in ("R1", "R2", "R3", "R4", "R5")] + \
+# handler names a resource may legitimately leave registered for a class (R6 has two candidates for C)
+ALSO = {("R6", "C"): {"R6.on_c_one", "R6.on_c_two"}}
+SELF_CONFLICT = {"R6"}
+
+
+def names_of(rid, c, hs):
+    return ALSO.get((rid, c), {hs[c]})
+
+
+OPS = [("register", r) for r in ("R1", "R2", "R3", "R4", "R5", "R6")] + [("unregister", r) for r in ("R1", "R2", "R3", "R4", "R5", "R6")] + \
       [("dispatch", m) for m in ("A", "B", "C", "D")] + [("register_function", "A"), ("register_function_byname", "B"), ("unregister_function", "A"), ("unregister_function", "C")]
 
 
@@ -160,12 +172,15 @@ class Run(object):
                 self.disp.register(self.res[arg])
             except Exception as e:
                 raised = e
-            if conflict:
+            if conflict or arg in SELF_CONFLICT:
                 if raised is None:
-                    self.flag("duplicate-refused", "registering a second handler for a class is not refused", "register(%s) succeeded although %s already registered" % (arg, conflict))
+                    if conflict:
+                        self.flag("duplicate-refused", "registering a second handler for a class is not refused", "register(%s) succeeded although %s already registered" % (arg, conflict))
+                    else:
+                        self.flag("duplicate-refused", "a resource with two handlers for one class is registered without complaint (one of them is silently dropped)", "register(%s) succeeded" % arg)
                 for c in hs:
                     if c not in ref:
-                        open_classes[c] = {None, hs[c]}
+                        open_classes[c] = {None} | names_of(arg, c, hs)
             else:
                 if raised is not None:
                     self.flag("register", "register of a resource without conflicts raises %s" % type(raised).__name__, "register(%s): %r" % (arg, raised))
@@ -173,7 +188,7 @@ class Run(object):
                     ref[c] = hs[c]
         elif kind == "unregister":
             hs = self.handlers[arg]
-            fully = all(ref.get(c) == hs[c] for c in hs)
+            fully = all(ref.get(c) in names_of(arg, c, hs) for c in hs)
             try:
                 self.disp.unregister(self.res[arg])
             except Exception as e:
@@ -181,11 +196,11 @@ class Run(object):
             if fully and raised is not None:
                 self.flag("unregister", "unregister of a registered resource raises %s" % type(raised).__name__, "unregister(%s): %r" % (arg, raised))
             for c in hs:
-                if ref.get(c) == hs[c]:
+                if ref.get(c) in names_of(arg, c, hs):
                     if raised is None or fully:
                         del ref[c]
                     else:
-                        open_classes[c] = {None, hs[c]}   # it raised on the way: either is acceptable
+                        open_classes[c] = {None, ref[c]}   # it raised on the way: either is acceptable
         elif kind == "dispatch":
             got = self.probe(arg)
             want = ref.get(arg)
